@@ -113,22 +113,6 @@ class OperationsManager(OperationsManagerProtocol):  # inheriting from protocol 
             msg_types = self._msg_reader.msg_types
             abstract_set_response = msg_types.AbstractSetResponse.from_node(message_data.p_msg.msg_node)
             invocation_info = abstract_set_response.InvocationInfo
-            if invocation_info.InvocationState in (
-                msg_types.InvocationState.FAILED,
-                msg_types.InvocationState.CANCELLED,
-                msg_types.InvocationState.CANCELLED_MANUALLY,
-            ):
-                # do not wait for an OperationInvokedReport
-                operation_result = OperationResult(
-                    abstract_set_response.InvocationInfo,
-                    None,
-                    None,
-                    None,
-                    abstract_set_response,
-                    [],
-                )
-                future_object.set_result(operation_result)
-                return future_object
             transaction_id = invocation_info.TransactionId
             # now look for all related report parts and add them to result
             parts = [
@@ -143,6 +127,21 @@ class OperationsManager(OperationsManagerProtocol):  # inheriting from protocol 
             if final_parts:
                 report_part = final_parts[0]  # assuming there is only one
                 future_object.set_result(self._mk_operation_result(report_part, abstract_set_response, parts))
+            elif invocation_info.InvocationState in (
+                msg_types.InvocationState.FAILED,
+                msg_types.InvocationState.CANCELLED,
+                msg_types.InvocationState.CANCELLED_MANUALLY,
+            ):
+                # do not wait for an OperationInvokedReport
+                operation_result = OperationResult(
+                    abstract_set_response.InvocationInfo,
+                    None,
+                    None,
+                    None,
+                    abstract_set_response,
+                    parts,
+                )
+                future_object.set_result(operation_result)
             else:
                 self._logger.info(  # noqa: PLE1205
                     'call_operation: transaction_id {} registered, state={}',
